@@ -181,6 +181,10 @@ func (m *monitor) block(b *sim.Block, res *sim.BlockRes, dump map[string][]byte)
 			}
 			if len(dump["v_"+string(mustAddrBytes(d.Val))]) == 0 {
 				m.feats["ok:WITHDRAW_REWARD:validator-record-absent"]++
+				if d.Amt.Sign() > 0 && d.Amt.IsInt64() && m.names[d.Addr] != m.names[d.Val]+"-stake" {
+					// somebody who is not the validator's stake account took matured rewards of a validator whose record is gone
+					m.feats["ok:WITHDRAW_REWARD:stranger-took-rewards-of-removed-validator"]++
+				}
 			}
 		}
 	}
@@ -839,7 +843,7 @@ func classify(f map[string]int, c *Case) (string, []string) {
 	var classes []string
 	for _, k := range []string{"end-of-schedule", "cycle-began-inside-close-window", "zero-forecast-ambiguity", "delegation-pool-nonzero", "delegators-rewarded",
 		"blocks-with-absent-signers", "rewards-with-absent-signers", "burnout-paid", "burnout-capped-by-pool", "restart-inside-cycle", "restart-at-cycle-boundary", "restart-after-schedule",
-		"withdraw-block-judged", "withdraw-block-not-judged", "ok:WITHDRAW_REWARD:amt-pos", "ok:WITHDRAW_REWARD:amt-neg", "ok:WITHDRAW_REWARD:amt-beyond-int64", "ok:WITHDRAW_REWARD:validator-record-absent",
+		"withdraw-block-judged", "withdraw-block-not-judged", "ok:WITHDRAW_REWARD:amt-pos", "ok:WITHDRAW_REWARD:amt-neg", "ok:WITHDRAW_REWARD:amt-beyond-int64", "ok:WITHDRAW_REWARD:validator-record-absent", "ok:WITHDRAW_REWARD:stranger-took-rewards-of-removed-validator",
 		"negative-withdrawn-record", "twin-apphash-differs-outside-reward-records", "hazard:forecast-shorter-than-cycle", "hazard:zero-forecast", "ok:STAKE", "ok:UNSTAKE", "ok:ADD_NETWORK_DELEGATION"} {
 		if f[k] > 0 {
 			classes = append(classes, k)
